@@ -80,7 +80,7 @@ theorem parseOptional_eq_ok {α} {st st' : PState} {k : Token} {cb : PState → 
     rw [h1]
     simp only [List.head?_cons, hr, if_true, hpt]
     cases cb (adv st) with
-    | error e => simp [hn, hp]
+    | error e => simp [hn]
     | ok v =>
       obtain ⟨a, s⟩ := v
       simp only [hn, hp, true_and, ne_eq, not_true_eq_false, false_and, or_false, Except.ok.injEq,
